@@ -259,7 +259,7 @@ Proof.
   - (* LYield *)
     destruct n; [apply IH in E; exact E|].
     inversion E; subst. unfold post; simpl. unfold woken_of. destruct w as [c0 s0 g0|q]; [|exact I].
-    unfold WF. apply wake_sets_woken.
+    cbn [wfuel]. apply wake_sets_woken.
   - (* LLeg *)
     match type of E with context[ch_buf (gch lch ?Hx)] => destruct (ch_buf (gch lch Hx)) end; [|apply IH in E; exact E].
     inversion E; subst. unfold post; simpl. apply registered_chan_reg.
